@@ -48,6 +48,18 @@ class SI:
 def unwrap(v): return v.x if isinstance(v, SI) else v
 
 
+_builtin_int = int
+
+
+def _int_shim(v=0, *a):
+    """int() that sees through the format-opaque wrapper (module-level shadow of the builtin inside digital_rf_hdf5)"""
+    if isinstance(v, SI): return v.x
+    return _builtin_int(v, *a)
+
+
+H.int = _int_shim
+
+
 class UArr:
     """uint64 / int64 1-d array stand-in"""
     def __init__(self, vals, signed=False): self.v = [SI(x) for x in vals]; self.signed = signed
